@@ -8,13 +8,13 @@ From SK Require Import lib.Tok model.C15_Model proof.C15_Proof model.C16_Model p
 Local Open Scope string_scope.
 Local Open Scope list_scope.
 
-Lemma sdrop_AInv d done arcs : sd_maps d = false → AInv done arcs → AInv done (sdrop_arc d <$> arcs).
+Lemma sdrop_AInv d done arcs : sd_rmap d = false → sd_pmap d = false → AInv done arcs → AInv done (sdrop_arc d <$> arcs).
 Proof.
-  intros Hm [Hvia Hmap Harc Hne]. split.
+  intros Hm Hm' [Hvia Hmap Harc Hne]. split.
   - intros u v a e. rewrite lookup_fmap. destruct (arcs !! (u, v)) as [a0|] eqn:E; [|done]. cbn. intros [= <-].
     cbn. by apply Hvia.
   - intros a t. rewrite lookup_fmap. destruct (arcs !! (t_u t, t_v t)) as [a0|] eqn:E; [|done]. cbn. intros [= <-] Ht.
-    unfold sdrop_arc. cbn. rewrite Hm. by apply Hmap.
+    unfold sdrop_arc. cbn. rewrite Hm, Hm'. by apply Hmap.
   - intros t Ht. rewrite lookup_fmap. destruct (Harc t Ht) as [a ->]. by eexists.
   - intros uv a. rewrite lookup_fmap. destruct (arcs !! uv) as [a0|] eqn:E; [|done]. cbn. intros [= <-]. cbn. by eapply Hne.
 Qed.
@@ -27,21 +27,21 @@ Qed.
 
 Lemma species_graph_roundtrip_edited (pick : gset string → string) (default_rule : string) (include_mol mol_attr : bool)
     (d : sdrops) (H : net) :
-  two_sided H → sd_maps d = false →
+  two_sided H → sd_rmap d = false → sd_pmap d = false →
   (species_graph_to_hypergraph pick default_rule mol_attr (sdrop_attrs d (hypergraph_to_species_graph include_mol H))).2 = None ∧
   stoich_of <$> edges (species_graph_to_hypergraph pick default_rule mol_attr
                          (sdrop_attrs d (hypergraph_to_species_graph include_mol H))).1
     = stoich_of <$> edges H.
 Proof.
-  intros H2 Hm. destruct (export_inv include_mol H) as [HA HN].
-  apply species_graph_import_inv; [done|by apply sdrop_AInv|by apply sdrop_NInv].
+  intros H2 Hm Hm'. destruct (export_inv include_mol H) as [HA HN].
+  apply species_graph_import_inv; [done|by apply AInv_VAInv, sdrop_AInv|by apply sdrop_NInv].
 Qed.
 
 (** non-vacuity: two reactions share the arc A -> B with different coefficients; everything but via and the maps deleted *)
 Definition exs_net : net :=
   mk_net [] [(None, "r", [("A", 2%Z)], [("B", 1%Z)]); (None, "q", [("A", 3%Z); ("C", 1%Z)], [("B", 5%Z)])] [("A", "CC")].
-Definition exs_all_but_maps : sdrops := SDrops true true true true false true.
-Definition exs_maps_only : sdrops := SDrops false false false false true false.
+Definition exs_all_but_maps : sdrops := SDrops true true true true false false true true.
+Definition exs_maps_only : sdrops := SDrops false false false false true true false false.
 Definition exs_back (d : sdrops) : net * option cerr :=
   species_graph_to_hypergraph pick_first "r" true (sdrop_attrs d (hypergraph_to_species_graph true exs_net)).
 Example ex_sdrop_nonvacuous :
